@@ -1,0 +1,56 @@
+#ifdef CHIBICC_VERIF
+#include <stdarg.h>
+#include <stdio.h>
+#include <stdlib.h>
+#include <string.h>
+#include <fcntl.h>
+#include <unistd.h>
+#include "verif_trace.h"
+
+static int vt_fd = -2;
+static long vt_seq;
+
+int vtrace_on(void) {
+  if (vt_fd == -2) {
+    char *p = getenv("CHIBICC_VERIF_TRACE");
+    vt_fd = (p && *p) ? open(p, O_WRONLY | O_CREAT | O_APPEND, 0644) : -1;
+  }
+  return vt_fd >= 0;
+}
+
+char *vtrace_str(char *s, int len) {
+  static char bufs[4][2048];
+  static int cur;
+  char *out = bufs[cur++ % 4];
+  int j = 0;
+  for (int i = 0; i < len && j < 2040; i++) {
+    unsigned char c = s[i];
+    if (c == '"' || c == '\\') {
+      out[j++] = '\\';
+      out[j++] = c;
+    } else if (c < 0x20 || c >= 0x7f) {
+      j += snprintf(out + j, 7, "\\u%04x", c);
+    } else {
+      out[j++] = c;
+    }
+  }
+  out[j] = 0;
+  return out;
+}
+
+void vtrace(char *fmt, ...) {
+  if (!vtrace_on())
+    return;
+  char buf[8192];
+  int n = snprintf(buf, sizeof(buf), "{\"pid\":%d,\"seq\":%ld,", (int)getpid(), ++vt_seq);
+  va_list ap;
+  va_start(ap, fmt);
+  n += vsnprintf(buf + n, sizeof(buf) - n - 3, fmt, ap);
+  va_end(ap);
+  if (n > (int)sizeof(buf) - 3)
+    n = sizeof(buf) - 3;
+  buf[n++] = '}';
+  buf[n++] = '\n';
+  if (write(vt_fd, buf, n) < 0) {}
+}
+#endif
